@@ -855,6 +855,13 @@ theorem build_contains_root (db : DB) (fuel root : Nat) (observers : List Nat) (
     root ∈ (build db fuel root observers).1.nodes :=
   build_root db fuel root observers h
 
+/-- **no spurious dependency edges** (so no cycle is reported that the blueprint does not have: C02's side of the cycle rule):
+    every edge of the graph `build` returns is justified by the database — a constructor feeding a component that needs its
+    output, a component and its error handler, a component and one of its transformers. -/
+theorem build_reports_only_real_dependencies (db : DB) (fuel root : Nat) (observers : List Nat) :
+    ∀ e ∈ (build db fuel root observers).1.edges, Just db e :=
+  build_edges_justified db fuel root observers
+
 /-- the shape of the seeded change C09-5: handler 0 needs `A`, whose constructor is the `Ok` matcher 2 of the fallible
     callable 1; the `Err` matcher 3 has the error handler 4, which needs `C` (5); 5 needs `D` (6) and 6 needs `C`: a cycle
     behind the error handler -/
